@@ -99,6 +99,17 @@ def make_case(rng, kind):
         gi.add_axial_regions(rng, case, 't0')
         if not t.get('use_low_fidelity_model'):
             t['SpacerGrid'] = dict(loss_coeff=1.2, axial_positions=[0.04, 0.05])
+    elif kind == "tables":
+        # detailed table requests at the inlet plane (never dumped), inside the core and at the outlet; temperature boundary
+        # conditions, so that the time points of a multi-point run (other powers) get other flow rates and axial meshes
+        L_ = case['core']['length']
+        case['setup']['AssemblyTables'] = {
+            'tab1': dict(type='coolant_subchannel', assemblies=[1], axial_positions=[0.0, round(rng.uniform(0.2, 0.8) * L_, 4), L_]),
+            'tab2': dict(type='duct_mw', assemblies=[1], axial_positions=[round(rng.uniform(1e-4, 1e-3), 5), L_])}
+        for a in case['assignment']:
+            for k_ in ('flowrate', 'delta_temp'):
+                a.pop(k_, None)
+            a['outlet_temp'] = round(case['core']['coolant_inlet_temp'] + rng.uniform(80, 160), 2)
     elif kind == "hotspot":
         t['FuelModel'] = dict(FUEL)
         t['Hotspot'] = {'clad': dict(temperature='clad_mw', input_sigma=3, output_sigma=2, subfactors='fftf_clad_mw')}
@@ -232,7 +243,7 @@ def run_main(case, d, n_tp, parallel, only=None):
 
 def oracle_main(ctx, rng, n):
     for ci in range(n):
-        kind = rng.choice(["plain", "fuel", "dump", "planes"])
+        kind = ["tables", "plain", "fuel", "dump", "planes"][ci % 5] if ci < 5 else rng.choice(["plain", "fuel", "dump", "planes", "tables"])
         case = make_case(rng, kind)
         n_tp = rng.choice([2, 3])
         base = str(ctx.work / ("m%d" % ci))
@@ -272,7 +283,7 @@ def run(ctx):
                 "Reactor(...), second construction, fresh execution; dassh main with 2-3 time points serial vs parallel vs alone")
     ctx.prove("Dassh.Props.C16")
     oracle_input(ctx, rng, 21 if ctx.thorough else 7)
-    oracle_main(ctx, rng, 4 if ctx.thorough else 1)
+    oracle_main(ctx, rng, 6 if ctx.thorough else 2)
     ctx.nontrivial = ctx.evals
     ctx.traces = ctx.evals
     ctx.trusted += ["the hypotheses of the theorems are observed on the real code (fingerprints, file digests)"]
